@@ -24,9 +24,17 @@ class HippoLLSDBaseFormatter(base_llsd.base.LLSDBaseFormatter):
         self.type_map[Vector3] = self.TUPLECOORD
         self.type_map[Vector4] = self.TUPLECOORD
         self.type_map[Quaternion] = self.TUPLECOORD
+        self.type_map[datetime.datetime] = self.DATETIME
 
     def TUPLECOORD(self, v: TupleCoord):
         return self.ARRAY(v.data())
+
+    def DATETIME(self, v: datetime.datetime):
+        # Our binary parser gives timezone-aware datetimes, the base formatters expect
+        # naive UTC and would emit an unparseable "+00:00Z" suffix otherwise.
+        if v.tzinfo is not None:
+            v = v.astimezone(datetime.timezone.utc).replace(tzinfo=None)
+        return self.DATE(v)
 
 
 class HippoLLSDXMLFormatter(base_llsd.serde_xml.LLSDXMLFormatter, HippoLLSDBaseFormatter):
